@@ -564,6 +564,17 @@ func isRangeLoop(l *natLoop) (bool, string) {
 	if _, ok := constInt(bound); ok {
 		return true, "a counter with a constant bound"
 	}
+	if _, isPhi := bound.(*ssa.Phi); isPhi {
+		allConst := true
+		for _, leaf := range phiLeaves(bound) {
+			if _, ok := constInt(leaf); !ok {
+				allConst = false
+			}
+		}
+		if allConst {
+			return true, "a counter whose bound is one of a few constants"
+		}
+	}
 	if call, ok := bound.(*ssa.Call); ok && builtinName(&call.Call) == "len" {
 		return true, "the elements of an in-memory value (len)"
 	}
